@@ -1,4 +1,4 @@
-"""KNOWN FINDING C04-preempt-offduty: pre-emptive priorities + NON-pre-emptive schedule.  A lowest-priority customer is
+"""C04, C05, C08, C12 (D33, formerly listed as findings *-preempt-offduty; fixed by /repo 49d38f6): pre-emptive priorities + NON-pre-emptive schedule.  A lowest-priority customer is
 finishing in overtime on an off-duty server while the new shift's server is busy with a middle-priority customer; a
 high-priority arrival pre-empts the lowest one; detatch_server dismisses the off-duty server and the pre-emptor is
 attached to the dismissed server: it is never served."""
